@@ -23,3 +23,23 @@ class type_subst:
 
     def decreases(self):
         return self
+
+
+@contract("kernel.type.Type.match_incr")
+class match_incr:
+    params = {'self': 'Type', 'T': 'Type', 'tyinst': 'map[str,Type]'}
+    returns = 'none'
+    modifies = ['tyinst']
+    raises = ['TypeMatchException']
+    ghost = {'k': 'str'}
+    loop_modifies = {0: ['tyinst']}
+
+    def ensures_extends(old_tyinst, tyinst, k):
+        # matching only ever adds bindings: existing ones are kept as they are
+        return implies(k in old_tyinst, k in tyinst and tyinst[k] == old_tyinst[k])
+
+    def invariant0(old_tyinst, tyinst, k):
+        return implies(k in old_tyinst, k in tyinst and tyinst[k] == old_tyinst[k])
+
+    def decreases(self):
+        return self
